@@ -195,13 +195,15 @@ _REQ_INNER_TMPL = \
 '''
 def process_request({all_args}):
     __traceback_hide__ = True
-    context = endpoint({endpoint_args})
-    if isinstance(context, BaseResponse):
-        resp = context
-    else:
-        resp = render({render_args})
-    return resp
+    context = __clastic_endpoint__({endpoint_args})
+    if __clastic_is_response__(context):
+        return context
+    return __clastic_render__({render_args})
 '''
+
+
+def _is_response(obj):
+    return isinstance(obj, BaseResponse)
 
 
 def _named_arg_str(args):
@@ -217,6 +219,10 @@ def _create_request_inner(endpoint, render, all_args,
     code_str = _REQ_INNER_TMPL.format(all_args=all_args_str,
                                       endpoint_args=ep_args_str,
                                       render_args=rn_args_str)
-    env = {'endpoint': endpoint, 'render': render, 'BaseResponse': BaseResponse}
+    # private names: the parameters of process_request are the
+    # injectables, any of which may be called endpoint, render, resp...
+    env = {'__clastic_endpoint__': endpoint,
+           '__clastic_render__': render,
+           '__clastic_is_response__': _is_response}
 
     return compile_code(code_str, name='process_request', env=env)
